@@ -617,6 +617,25 @@ pub fn check_history(sc: &E1Scenario, calls: &[Call], rep: &mut RunReport) {
             }
             _ => {}
         }
+        // reach probes for the storage-fault slice
+        match &c.op {
+            Op::Initiate { imports: None, .. } | Op::Load { imports: None, .. } => {
+                rep.probe(if c.resp.ret == 0 { "corrupt_text_refused" } else { "corrupt_text_accepted" });
+            }
+            Op::Emit { .. } => {
+                if let Some(m) = &live_slot {
+                    if m.supplied.values().any(|v| v.1.is_none()) {
+                        rep.probe(if c.resp.ret == 1 { "emit_ok_with_corrupt_text" } else { "emit_error_with_corrupt_text" });
+                    }
+                }
+            }
+            Op::LoadConfig { .. } => {
+                if c.resp.ret == 0 {
+                    rep.probe("config_refused");
+                }
+            }
+            _ => {}
+        }
         // --- oracle 3: required set (model-rendered files only)
         if let (Op::Required { .. }, Some(m)) = (&c.op, &live_slot) {
             if c.resp.ret != 1 {
@@ -822,6 +841,46 @@ pub fn gen_scenario(run_seed: u64, variant: &str, tier: Tier) -> E1Scenario {
     let ops_model = wgen::gen_ops(&mut rw, &schema, &o);
     let files = host_files_from_ops(&ops_model, &mut rw, true);
     let configs: Vec<String> = LOADER_CONFIGS.iter().map(|s| s.to_string()).collect();
+    let mut files = files;
+    let mut configs = configs;
+    if variant == "c08" {
+        // storage faults: some versions of some files (and some config texts) are corrupted
+        // the way disks and editors do it; the host decodes them as UTF-8 with replacement,
+        // like `readFile(f, "utf-8")`
+        let all: crate::sandbox::Tree = files.iter().map(|f| (f.path.clone(), f.versions[0].text.clone().into_bytes())).collect();
+        let n = rf.range(1, 3);
+        for _ in 0..n {
+            let fi = rf.below(files.len());
+            let orig = files[fi].versions[0].text.clone();
+            let kind = *rf.pick(&["truncate", "truncate", "bitflip", "bitflip", "splice", "empty", "badutf8"]);
+            let c = crate::e2::Corruption { path: files[fi].path.clone(), kind: kind.into(), a: rf.below(orig.len().max(1)), b: rf.below(8) };
+            let mut t: crate::sandbox::Tree = [(files[fi].path.clone(), orig.into_bytes())].into_iter().collect();
+            if crate::e2::corrupt(&mut t, &c, &all) {
+                let text = String::from_utf8_lossy(&t[&files[fi].path]).into_owned();
+                let v = FileVersion { text, imports: None };
+                if rf.chance(1, 2) {
+                    files[fi].versions[0] = v;
+                } else {
+                    files[fi].versions.push(v);
+                }
+            }
+        }
+        if rf.chance(1, 2) {
+            let ci = rf.below(configs.len());
+            let orig = configs[ci].clone();
+            let k = rf.below(orig.len().max(1));
+            let mut b = orig.into_bytes();
+            match rf.below(3) {
+                0 => b.truncate(k),
+                1 => b[k] ^= 1 << rf.below(8),
+                _ => {
+                    b.truncate(k);
+                    b.extend_from_slice(b": [ {");
+                }
+            }
+            configs[ci] = String::from_utf8_lossy(&b).into_owned();
+        }
+    }
     let mut sc = E1Scenario {
         variant: variant.to_string(),
         hash_seed: base.fork("hash").next_u64(),
@@ -841,6 +900,9 @@ pub fn gen_scenario(run_seed: u64, variant: &str, tier: Tier) -> E1Scenario {
         let modules: Vec<usize> = (0..n_mod).map(|_| rs.below(sc.files.len())).collect();
         let mut plan = L1Plan { modules, sched_seed: rs.next_u64(), pct: rs.chance(1, 3), config: rs.chance(1, 2).then(|| rs.below(sc.configs.len())), ..Default::default() };
         // fault mix (swarm): each kind enabled for a subset of runs
+        if variant == "c08" {
+            plan.config = Some(rs.below(sc.configs.len()));
+        }
         let faulty = variant != "c13" && rf.chance(2, 3);
         if faulty {
             let kinds: Vec<bool> = (0..6).map(|_| rf.chance(1, 2)).collect();
@@ -1009,6 +1071,7 @@ pub fn execute(sc: &E1Scenario) -> RunReport {
         rep.probe("interleaved_tasks");
     }
     rep.signature = sig;
+    rep.digest = rng::fnv(&serde_json::to_string(&calls).unwrap());
     rep.nontrivial = interleaved || !rep.faults.is_empty();
     rep.hash_seeds = vec![sc.hash_seed, sc.alt_hash_seed];
     rep.sample = Some(json!({
